@@ -17,6 +17,7 @@ import SharkVerif.Model.CV
 import SharkVerif.Props.C03
 import SharkVerif.Lemmas.Regroup
 import SharkVerif.Lemmas.View
+import SharkVerif.Lemmas.Subset
 namespace SharkVerif.C12
 open SharkVerif.CheckedNat SharkVerif.Gen.BatchArith SharkVerif.BatchArith SharkVerif.Dataset SharkVerif.CV
 
@@ -174,31 +175,11 @@ theorem ofStarts_eq_foldRanges (set : LabeledData ι κ) (counts : List Nat)
 /-- **training_is_complement**: for every index set `v` the training indices `complement v n` contain exactly
 the batch indices below n that are not in `v`, each once, in ascending order -/
 theorem training_is_complement (v : List Nat) (n : Nat) :
-    (∀ i, i ∈ Data.complement v n ↔ (i < n ∧ i ∉ v)) ∧ (Data.complement v n).Nodup := by
-  refine ⟨fun i => ?_, ?_⟩
-  · simp [Data.complement, List.mem_filter, List.mem_range]
-  · exact List.Nodup.sublist List.filter_sublist List.nodup_range
+    (∀ i, i ∈ Data.complement v n ↔ (i < n ∧ i ∉ v)) ∧ (Data.complement v n).Nodup := complement_spec v n
 
 /-- validation ∪ training is a permutation of all batch indices (for duplicate-free validation sets) -/
 theorem validation_training_partition (v : List Nat) (n : Nat) (hv : v.Nodup) (hlt : ∀ i ∈ v, i < n) :
-    (v ++ Data.complement v n).Perm (List.range n) := by
-  apply (List.perm_ext_iff_of_nodup ?_ List.nodup_range).mpr
-  · intro i
-    have := (training_is_complement v n).1 i
-    simp only [List.mem_append, List.mem_range, this]
-    constructor
-    · rintro (h | h)
-      · exact hlt i h
-      · exact h.1
-    · intro h
-      by_cases hi : i ∈ v
-      · exact Or.inl hi
-      · exact Or.inr ⟨h, hi⟩
-  · apply List.nodup_append.mpr
-    refine ⟨hv, (training_is_complement v n).2, ?_⟩
-    intro a ha b hb hab
-    subst hab
-    exact ((training_is_complement v n).1 a).mp hb |>.2 ha
+    (v ++ Data.complement v n).Perm (List.range n) := subset_complement_indices v n hv hlt
 
 /-! ## C. equal sizes and class balance -/
 
@@ -357,63 +338,63 @@ theorem createCVIndexed_partition (set : LabeledData ι κ) (hw : C03.WF set) (k
   simp only [hsnd, hels] at hrest
   exact ⟨hrest.1, hrest.2.1, hrest.2.1 ▸ hrest.2.2⟩
 
+/-- **createCVSameSize**: for every permutation the shuffle may draw, on a well-formed dataset with non-empty
+batches: the call succeeds only into a well-formed dataset that is a permutation of the original (input, label)
+pairs, partitioned into exactly the batch sizes `batchPartitioning` computed for the validation sizes
+⌊n/k⌋(+1), with the folds' validation batch sets = consecutive ranges (disjoint, covering: `folds_disjoint_cover`) -/
+theorem createCVSameSize_partition (set : LabeledData ι κ) (hw : C03.WF set) (hne : allPos set.inputs.partitioning)
+    (k : Nat) (perm : List Nat) (bs : Nat) (hbs : 0 < bs) (hk : 0 < k)
+    (hz : optimalBatchSizes 0 bs = some []) (f : CVFolds ι κ) (h : createCVSameSize set k perm bs = .ok f) :
+    ∃ vs, sameSizes set.numberOfElements k = some vs ∧
+      C03.WF f.dataset ∧ (C03.pairs f.dataset).Perm (C03.pairs set) ∧
+      f.dataset.partitioning = vs.flatMap (obs0 bs) ∧
+      f.validationFolds = foldRanges (vs.map fun p => (obs0 bs p).length) 0 := by
+  simp only [createCVSameSize, bind_ok, ofOpt_ok, require_ok] at h
+  obtain ⟨vs, hvs, ⟨nb, st, sizes⟩, hbp, set1, hrep, _, hperm, set2, hreo, hfolds⟩ := h
+  refine ⟨vs, hvs, ?_⟩
+  obtain ⟨hspec, _⟩ := batchPartitioning_with_empty vs bs hbs hz
+  rw [hspec] at hbp
+  simp only [Option.some.injEq, Prod.mk.injEq] at hbp
+  obtain ⟨hnb, hst, hsizes⟩ := hbp
+  obtain ⟨hw1, hp1, hpart1⟩ := C03.repartition_pairs set set1 sizes hrep
+  -- the repartitioned set has non-empty batches (checked by `repartition` itself)
+  have hne1 : allPos set1.inputs.partitioning := by
+    have hr := hrep
+    simp only [LabeledData.repartition, bind_ok, pure_ok] at hr
+    obtain ⟨i, hi, l, _, rfl⟩ := hr
+    have hip := (C03.repartition_flat _ _ _ hi).2.1
+    simp only [Data.repartition, bind_ok, require_ok, pure_ok, Bool.and_eq_true] at hi
+    obtain ⟨_, _, _, ⟨_, hall⟩, _⟩ := hi
+    show allPos i.partitioning
+    rw [hip]; exact allPos_of_all sizes hall
+  have hpm : perm.Perm (List.range set1.numberOfElements) := List.isPerm_iff.mp hperm
+  obtain ⟨⟨hw2, hne2⟩, hp2⟩ := C03.step_preserves set1 set2 (.reorder perm) ⟨hw1, hne1⟩ hpm hreo
+  have hpart2 : set2.partitioning = sizes := by
+    have hr := hreo
+    simp only [LabeledData.reorderElements, bind_ok, pure_ok] at hr
+    obtain ⟨i, hi, l, _, rfl⟩ := hr
+    have := (C03.reorderElements_flat _ _ _ hne1 hi).2.1
+    show i.partitioning = sizes
+    rw [this]; exact hpart1
+  have hnb2 : set2.numberOfBatches = (vs.map fun p => (obs0 bs p).length).sum := by
+    have : set2.numberOfBatches = set2.partitioning.length := by
+      simp [LabeledData.numberOfBatches, LabeledData.partitioning, Data.numberOfBatches, Data.partitioning]
+    rw [this, hpart2, ← hsizes, List.length_flatMap]
+  rw [← hst] at hfolds
+  rw [ofStarts_eq_foldRanges set2 _ hnb2] at hfolds
+  simp only [Except.ok.injEq] at hfolds
+  subst hfolds
+  exact ⟨hw2, hp2.trans (hp1 ▸ List.Perm.refl _), hsizes ▸ hpart2, rfl⟩
+
 /-! ## E. elements of the folds -/
 variable {ε : Type}
-
-/-- the elements of an indexed subset: the listed batches, in the listed order -/
-theorem indexedSubset_flat (d d' : Data ε) (idx : List Nat) (h : d.indexedSubset idx = .ok d') :
-    d'.flat = idx.flatMap (fun i => d.batches.getD i []) ∧ ∀ i ∈ idx, i < d.numberOfBatches := by
-  have hb := (C03.indexedSubset_batches d d' idx h).1
-  simp only [Data.flat]
-  generalize d'.batches = bs at hb
-  clear h
-  induction idx generalizing bs with
-  | nil => simp at hb; simp [hb]
-  | cons i idx ih =>
-    cases bs with
-    | nil => simp at hb
-    | cons b bs =>
-      simp only [List.map_cons, List.cons.injEq] at hb
-      obtain ⟨hi, hrest⟩ := hb
-      obtain ⟨h1, h2⟩ := ih bs hrest
-      have hlt : i < d.batches.length := by
-        rcases Nat.lt_or_ge i d.batches.length with hlt | hge
-        · exact hlt
-        · rw [List.getElem?_eq_none hge] at hi; simp at hi
-      refine ⟨?_, ?_⟩
-      · simp only [List.flatten_cons, List.flatMap_cons, h1]
-        congr 1
-        rw [List.getD_eq_getElem?_getD, ← hi]; rfl
-      · intro j hj
-        simp only [List.mem_cons] at hj
-        rcases hj with rfl | hj
-        · exact hlt
-        · exact h2 j hj
-
-theorem flatMap_range_getD (l : List (List ε)) : (List.range l.length).flatMap (fun i => l.getD i []) = l.flatten := by
-  have : (List.range l.length).map (fun i => l.getD i []) = l := by
-    apply List.ext_getElem?
-    intro i
-    by_cases hi : i < l.length
-    · simp [hi, List.getD_eq_getElem?_getD]
-    · simp [hi]
-  rw [List.flatMap_def, this]
 
 /-- **validation ∪ training = everything** at the element level: for a duplicate-free validation batch set
 the elements of the validation part and of the training part (its complement) together are a permutation of
 the elements of the reorganised dataset — nothing lost, nothing duplicated -/
 theorem validation_training_elements (d v t : Data ε) (idx : List Nat) (hnd : idx.Nodup)
     (hv : d.indexedSubset idx = .ok v) (ht : d.indexedSubset (Data.complement idx d.numberOfBatches) = .ok t) :
-    (v.flat ++ t.flat).Perm d.flat := by
-  obtain ⟨hvf, hlt⟩ := indexedSubset_flat d v idx hv
-  obtain ⟨htf, _⟩ := indexedSubset_flat d t _ ht
-  rw [hvf, htf, ← List.flatMap_append]
-  have hp := validation_training_partition idx d.numberOfBatches hnd hlt
-  have := (hp.map (fun i => d.batches.getD i [])).flatten
-  simp only [← List.flatMap_def] at this
-  refine this.trans ?_
-  rw [Data.numberOfBatches, flatMap_range_getD]
-  exact List.Perm.refl _
+    (v.flat ++ t.flat).Perm d.flat := subset_complement_elements d v t idx hnd hv ht
 
 /-- **validation parts partition the data** at the element level: the validation parts of folds built from
 the starts of `batchPartitioning`, concatenated in fold order, are exactly the element sequence of the
